@@ -199,10 +199,13 @@ ItemOf(c, stack, ts) ==
    rid |-> LET j == LastWith(stack, IsRuby) IN IF j = 0 THEN 0 ELSE stack[j].rid,
    rb |-> ts]
 BrItem == [c |-> 10, b |-> 0, i |-> 0, u |-> 0, col |-> <<>>, bg |-> <<>>, lang |-> <<>>, role |-> "", rid |-> 0, rb |-> -1]
+\* a line break carries no style; inside a ruby node it stays with the base / annotation it is written in
+ItemOrBr(c, stack, ts) == IF c = LF THEN LET it == ItemOf(c, stack, ts) IN [BrItem EXCEPT !.role = it.role, !.rid = it.rid]
+                          ELSE ItemOf(c, stack, ts)
 
 BuildStep(bs, tok, begin) ==
   CASE tok.t = "str" ->
-         [bs EXCEPT !.out = @ \o [j \in 1..Len(tok.v) |-> IF tok.v[j] = LF THEN BrItem ELSE ItemOf(tok.v[j], bs.stack, bs.ts)]]
+         [bs EXCEPT !.out = @ \o [j \in 1..Len(tok.v) |-> ItemOrBr(tok.v[j], bs.stack, bs.ts)]]
     [] tok.t = "start" ->
          IF tok.v = N_ruby THEN [bs EXCEPT !.stack = Append(@, Node(tok.v, tok.cls, tok.ann, bs.nruby + 1)), !.nruby = @ + 1]
          ELSE IF tok.v \in SpanNames THEN [bs EXCEPT !.stack = Append(@, Node(tok.v, tok.cls, tok.ann, 0))]
